@@ -126,6 +126,7 @@ THEOREMS = [
     "JanetModel.Props.C15.skeleton_janet_quick_asm_ok",
     "JanetModel.Props.C15.skeleton_janetc_check_nil_form_ok",
     "JanetModel.Props.C15.skeleton_janetc_call_selection_ok",
+    "JanetModel.Props.C15.skeleton_janetc_varset_ok",
     "JanetModel.Props.C15.skeleton_janetc_movenear_ok",
     "JanetModel.Props.C15.skeleton_janetc_regnear_ok",
     "JanetModel.Props.C15.skeleton_janetc_emit_sss_ok",
